@@ -8,7 +8,9 @@ from .common import log, scratch, Timer
 
 ALPHA = ["a", "b", "Z", "1", "_", ".", "|", "+", "*", "(", ")", "[", "]", "\\", "'", '"', " ", "\n", "\t", "-", "/", "#", "{", "?", "$", "^"]
 WORDS = ["for", "A", "S", "X", "EMPTY", "STOP", "KEYWORD", "a.b", "c++", "a-", "-a", "\\n", "\\\\", "it's", 'say "x"', "x y", "a|b", "(a)", "[ab]", "a*", "1.5", "end.", "//", "/*", "a_1", "b_opt"]
-KW = {"none": None, "word": r"\w+", "ext": r"[a-z+\-.|*()\[\]\\ ]+"}
+# ("alt": alternatives of which an EARLIER one matches a proper prefix of the text -- the text is still fully matched by the regex; finding D50:
+# the keyword test compared what regex.match() returns, i.e. the first alternative that matches, with the whole text)
+KW = {"none": None, "word": r"\w+", "ext": r"[a-z+\-.|*()\[\]\\ ]+", "alt": r"a|fo|[a-zA-Z]\w+|1"}
 PARAMS = {"quick": dict(n2=260, n3=140), "thorough": dict(n2=10**9, n3=6000)}
 
 
